@@ -1,4 +1,5 @@
 import HexProofs.Framework.Program
+import HexProofs.Framework.Gen.ProgramLifeTf
 import HexProofs.Framework.Gen.ProgramMore
 import HexProofs.Framework.Gen.ProgramLife
 import HexProofs.Writes.MembersC14
@@ -607,5 +608,45 @@ theorem calculate_index_reproduces_trees_haCfg (tf : Option Int) (htf : ∀ t, t
   calculateIndex_reproduces_haCfg hk round tf htf fill raw done hraw h i hlo hhi act
 
 #print axioms calculate_index_reproduces_trees_haCfg
+
+
+open Hex Hex.C01
+variable {F : Type} [PyF F]
+
+/-! ### lifespan combined with a timeframe (HexProofs/Framework/Gen/ProgramLifeTf.lean) -/
+
+/-- a program never changes the tree or the manager configuration (any configuration) -/
+theorem program_keeps_tree_cfg (s₀ s : IndState F) (ops : List (Op F)) (h : Runs s₀ ops s) :
+    s.tree = s₀.tree ∧ s.mgr.cfg = s₀.mgr.cfg := runs_frame s₀ s ops h
+
+/-- **C14 for `recalculate()` on a timeframe (+ fill) + lifespan manager, all 27 classes**: after ANY program that runs,
+`recalculate()` EQUALS the batch run (default configuration) over the candles currently held, stripped -/
+theorem recalculate_eq_batch_held_lifespan_tf (k : Kind F) (name : String) (round : Nat) (hk : CoveredTreeX name k)
+    (tf : Int) (fill : Bool) (life : Int) (init : List (Candle F)) (ops : List (Op F)) (s₀ s : IndState F)
+    (h₀ : IndState.init (mkTop k name round) { tf := some tf, fill := fill, lifespan := some life } init = .ok s₀)
+    (hruns : Runs s₀ ops s) :
+    candlesOf s.recalculate = candlesOf (runBatch (mkTop k name round) {} s.purge.mgr.candles) :=
+  recalculate_eq_batch_held_lifeTf hk round tf fill life init ops s₀ s h₀ hruns
+
+/-- … on ANY tree and ANY manager configuration -/
+theorem recalculate_eq_batch_held_anycfg (ind : Ind F) (cfg : MgrCfg) (init : List (Candle F)) (ops : List (Op F))
+    (s₀ s : IndState F) (h₀ : IndState.init ind cfg init = .ok s₀) (hruns : Runs s₀ ops s) :
+    candlesOf s.recalculate = candlesOf (runBatch ind {} s.purge.mgr.candles) :=
+  (Hex.recalculate_eq_batch_held_anycfg ind cfg init ops s₀ s h₀ hruns).2.2.1
+
+/-- … as the row-major spec of the bare candles held, when those are reading-free (PARTIAL: hypothesis `hpl`) -/
+theorem recalculate_eq_rowMajor_held_lifespan_tf_partial (k : Kind F) (name : String) (round : Nat)
+    (hk : CoveredTreeX name k) (tf : Int) (fill : Bool) (life : Int) (init : List (Candle F)) (ops : List (Op F))
+    (s₀ s : IndState F)
+    (h₀ : IndState.init (mkTop k name round) { tf := some tf, fill := fill, lifespan := some life } init = .ok s₀)
+    (hruns : Runs s₀ ops s) (hpl : ∀ c ∈ s.purge.mgr.candles, Plain c) :
+    ∃ T : TreeSpec (mkTop k name round), ∀ out,
+      candlesOf s.recalculate = .ok out ↔ Gen.rowMajor T.S s.purge.mgr.candles = .ok out :=
+  recalculate_eq_rowMajor_held_lifeTf_partial hk round tf fill life init ops s₀ s h₀ hruns hpl
+
+/-- what is FALSE: without a `recalculate()` the final `calculate()` is not the batch run over the candles held -/
+example := @LifeTfDemo.final_ne_batch_held
+example := @LifeTfDemo.progT_runs
+example := @LifeTfDemo.progT_runs_fill
 
 end Hex.C14
